@@ -29,14 +29,14 @@ fn space_for(tier: Tier) -> Space {
             s.ast("K", 4, 64).ast("Q", 2, 64).ast("CL", 3, 64).ast("G", 5, 64).ast("AN", 3, 64).ast("U", 3, 64).ast("ALT", 3, 64).ast("NEST", 5, 64).ast("CAPQ", 5, 64).ast("BR", 4, 64);
             // one more kernel level, lighter: flags "" and "m", inputs of length <= 2
             s.ast_range("K", 5, 5, 256, 2);
-            s.tok("T", &gen::T_FULL, 3, 64).tok("T0", &gen::T_CORE, 3, 64);
+            s.tok("T", &gen::T_FULL, 3, 64).tok("T0", &gen::T_CORE, 3, 64).tok("TU", &gen::T_UNI, 3, 64);
             s.list("flagstrings", 1 + 11 + 121 + 1331, 128);
             s.list("triggers", crate::checks::c08::triggers().len() as u64, 16);
             s.list("whitespace under x", xws_crash_cases().len() as u64, 16);
         }
         Tier::Thorough => {
             s.ast("K", 5, 64).ast("Q", 3, 64).ast("CL", 3, 64).ast("G", 6, 64).ast("AN", 4, 64).ast("U", 4, 64).ast("CI", 3, 64).ast("ALT", 4, 64).ast("NEST", 6, 64).ast("GCM", 4, 64).ast("CAPQ", 6, 64).ast("BR", 5, 64);
-            s.tok("T", &gen::T_FULL, 3, 64).tok("T0", &gen::T_CORE, 5, 64);
+            s.tok("T", &gen::T_FULL, 3, 64).tok("T0", &gen::T_CORE, 5, 64).tok("TU", &gen::T_UNI, 4, 64);
             s.list("flagstrings", 1 + 11 + 121 + 1331, 128);
             s.list("triggers", crate::checks::c08::triggers().len() as u64, 16);
             s.list("whitespace under x", xws_crash_cases().len() as u64, 16);
@@ -194,6 +194,11 @@ impl Check for Crash {
                 space::for_each_text(seg, lo, hi, &mut |_i, text| {
                     let mut inputs: Vec<String> = ["", "a", "ab", "aab", "b\na", "1-a", "\u{1F600}a", "a\r\n"].iter().map(|s| s.to_string()).collect();
                     inputs.push(text.to_string());
+                    if scope_name.starts_with("TU") {
+                        for u in ["\u{e9}\u{c9}", "\u{130}i\u{131}I\u{df}", "\u{1F600}\u{301}\u{0}", "\u{10FFFF}\u{FFFF}\u{85}\u{2028}"] {
+                            inputs.push(u.to_string());
+                        }
+                    }
                     for xsd in [false, true] {
                         for flags in FLAG_MENU {
                             j.out.pin(&|| format!("compile {:?} {:?} xsd={}", text, flags, xsd));
